@@ -93,6 +93,10 @@ func (e *enc) valText(v ssa.Value) string {
 	case *ssa.Index:
 		return e.valText(x.X) + "[" + e.valText(x.Index) + "]"
 	case *ssa.Call:
+		if x.Call.IsInvoke() {
+			// a method of an interface value: keep the receiver (ctx.Done() and cctx.Done() are two channels)
+			return e.valText(x.Call.Value) + "." + x.Call.Method.Name() + "()"
+		}
 		return e.calleeShort(&x.Call) + "()"
 	case *ssa.Extract:
 		return fmt.Sprintf("%s.%d", e.valText(x.Tuple), x.Index)
@@ -372,6 +376,7 @@ func (e *enc) unop(st *State, x *ssa.UnOp) {
 		v := e.fresh("recv", sortOf(ct.Elem()))
 		e.assumeAll(e.facts(v, ct.Elem(), true))
 		e.recvAssume(st, x.X, v, ct.Elem())
+		e.countRecv(st, x.X, "")
 		// "recv <chan> flag <name>": ghost boolean that becomes true once this receive has happened
 		if e.c != nil {
 			for _, cc := range e.c.calls["recv:"+e.valText(x.X)] {
@@ -859,6 +864,7 @@ func (e *enc) selectInstr(st *State, x *ssa.Select) {
 			}
 		}
 		if s.Dir == types.RecvOnly {
+			e.countRecv(st, s.Chan, fmt.Sprintf("(= %s %d)", idx, k))
 			et := s.Chan.Type().Underlying().(*types.Chan).Elem()
 			v := e.fresh("selrecv", sortOf(et))
 			e.assumeAll(e.facts(v, et, true))
